@@ -6,7 +6,7 @@ HERE = os.path.dirname(os.path.dirname(os.path.abspath(__file__)))
 res = {}
 for path in sys.argv[1:]:
     for line in open(path):
-        m = re.match(r"(C\d\d-\d) (C\d\d) exit=(\d+)\s*(.*)", line)
+        m = re.match(r"([CW]\d\d-\d) (C\d\d) exit=(\d+)\s*(.*)", line)
         if not m:
             continue
         sid, prop, rc, rest = m.group(1), m.group(2), int(m.group(3)), m.group(4)
